@@ -993,6 +993,26 @@ static int apply_patch(cJSON *object, const cJSON *patch, const cJSON_bool case_
         }
     }
 
+    /* copy/move to the root: the whole document becomes the value */
+    if (path->valuestring[0] == '\0')
+    {
+        overwrite_item(object, *value);
+
+        /* delete the node that held the value */
+        cJSON_free(value);
+        value = NULL;
+
+        /* the root has no name */
+        if (object->string != NULL)
+        {
+            cJSON_free(object->string);
+            object->string = NULL;
+        }
+
+        status = 0;
+        goto cleanup;
+    }
+
     /* Now, just add "value" to "path". */
 
     /* split pointer in parent and child */
